@@ -205,7 +205,7 @@ func (f *Formatter) formatDirectorDeclaration(decl *ast.DirectorDeclaration) *De
 				if v := f.formatComment(v.Leading, " ", 0); v != "" {
 					line.Key += v
 				}
-				line.Key += fmt.Sprintf(".%s = %s; ", v.Key.String(), v.Value.String())
+				line.Key += fmt.Sprintf(".%s = %s; ", v.Key.String(), f.formatExpression(v.Value).String())
 			}
 			if len(t.Infix) > 0 {
 				line.Key += f.formatComment(t.Infix, " ", 0)
@@ -216,7 +216,8 @@ func (f *Formatter) formatDirectorDeclaration(decl *ast.DirectorDeclaration) *De
 		case *ast.DirectorProperty:
 			line.Key += "." + t.Key.String()
 			line.Operator = " = "
-			line.Value = t.Value.String()
+			// String() would decode the escape sequences of a string value
+			line.Value = f.formatExpression(t.Value).String()
 			line.EndCharacter = ";"
 		}
 		lines = append(lines, line)
